@@ -15,7 +15,7 @@
 //!     lock() returns (otherwise the harness reports HANG) and a final try_lock succeeds
 //!   * try_lock succeeded only with nobody inside (occupancy), and a cancelled coroutine never ran
 //!     its critical section after the cancel panic (would show as thread/coroutine panic otherwise)
-//! API events for the acceptor: mx.actor(k), lock.call/lock.ret, try.call/try.ret(ok), unlock.call/unlock.ret,
+//! API events for the acceptor: mx.actor(k, coroutine id), cs.read(v)/cs.write(v+1), lock.call/lock.ret, try.call/try.ret(ok), unlock.call/unlock.ret,
 //! mx.cancel(k) right before `cancel()`, cv.wait.call / cv.wait.ret.
 use mayv::*;
 use std::cell::UnsafeCell;
@@ -29,6 +29,17 @@ fn envn(k: &str, d: usize) -> usize {
 static OCC: AtomicUsize = AtomicUsize::new(0);
 static ACQ: AtomicUsize = AtomicUsize::new(0);
 static DONE: AtomicUsize = AtomicUsize::new(0);
+static GO: AtomicUsize = AtomicUsize::new(0);
+
+/// first thing every actor does: wait until all actors exist (coroutine objects are pooled: an actor that
+/// finished before the next one is spawned would hand its identity on), then announce itself to the acceptor
+fn hello(who: usize) {
+    let c = mayv::ctx();
+    while GO.load(Ordering::SeqCst) == 0 {
+        c.yield_now();
+    }
+    c.log("mx.actor", who as u64, may::verif::current_co_id(), None);
+}
 
 struct Shared {
     m: may::sync::Mutex<bool>,
@@ -48,10 +59,12 @@ fn critical(sh: &Shared, who: usize, pts: usize) {
     }
     ACQ.fetch_add(1, Ordering::SeqCst);
     let v = unsafe { *sh.plain.get() };
+    c.log("cs.read", 0, v, None);
     for _ in 0..pts {
         c.point();
     }
     unsafe { *sh.plain.get() = v + 1 };
+    c.log("cs.write", 0, v + 1, None);
     let o = OCC.fetch_sub(1, Ordering::SeqCst);
     if o != 1 {
         c.fail(format!("mutual-exclusion: actor {who} leaves the critical section, occupancy was {o}"));
@@ -60,7 +73,7 @@ fn critical(sh: &Shared, who: usize, pts: usize) {
 
 fn plain_actor(sh: Arc<Shared>, who: usize, iters: usize, try_pct: u64) {
     let c = mayv::ctx();
-    c.log("mx.actor", who as u64, 0, None);
+    hello(who);
     for _ in 0..iters {
         let r = c.rand() % 100;
         let pts = (c.rand() % 3) as usize;
@@ -105,7 +118,7 @@ fn plain_actor(sh: Arc<Shared>, who: usize, iters: usize, try_pct: u64) {
 /// actor 0 of the condvar variant: waits for the flag (Condvar::wait re-locks with the cancel disabled)
 fn cv_waiter(sh: Arc<Shared>, who: usize) {
     let c = mayv::ctx();
-    c.log("mx.actor", who as u64, 0, None);
+    hello(who);
     c.log("lock.call", 0, 0, None);
     let mut g = sh.m.lock().unwrap();
     c.log("lock.ret", 0, 0, None);
@@ -124,7 +137,7 @@ fn cv_waiter(sh: Arc<Shared>, who: usize) {
 /// actor 1 of the condvar variant: sets the flag, notifies, keeps the mutex for a while
 fn cv_notifier(sh: Arc<Shared>, who: usize, hold: usize) {
     let c = mayv::ctx();
-    c.log("mx.actor", who as u64, 0, None);
+    hello(who);
     c.log("lock.call", 0, 0, None);
     let mut g = sh.m.lock().unwrap();
     c.log("lock.ret", 0, 0, None);
@@ -181,6 +194,7 @@ fn main() {
                 hs.push(H::T(ctx.spawn(&format!("a{k}"), body)));
             }
         }
+        GO.store(1, Ordering::SeqCst);
         // cancel some coroutines at random schedule points
         let cos: Vec<usize> = mix.iter().enumerate().filter(|(_, c)| **c == 'c').map(|(k, _)| k).collect();
         let mut victims: Vec<usize> = vec![];
